@@ -150,7 +150,120 @@ Definition run_client (x : sx) : sx :=
   | _ => err "bad case"
   end.
 
+(* ---- the mount leg: shard directories of the cache that are mount points of their own.
+   case = ( cap ( (content id) ... ) ( id ... ) ( (dir/ pages) ... ) ( op ... ) ), a content may be
+   written ( rep byte n ).  Which FAULT an op meets is decided here from the mounts and the
+   model state, and handed to the model as the op variant:
+     insert_with under a mounted shard  -> the final rename fails        (TInsertWithXdev)
+     insert_file under a mounted shard  -> rename fails, fall-back copy  (TInsertFileCopy fits),
+       fits = the tmpfs (4 KiB pages) has room once the old file at the path is truncated.
+   obs as for tccache with lengths in place of contents. ---- *)
+Definition get_content (x : sx) : bytes :=
+  match x with
+  | SL [t; c; n] => if is_sym "rep" t then repeat (get_N c) (N.to_nat (get_N n)) else []
+  | _ => get_B x
+  end.
+
+Definition dec_pair_m (x : sx) : bytes * id :=
+  match x with
+  | SL [c; i] => (get_content c, get_B i)
+  | _ => ([], [])
+  end.
+
+Definition dec_mount (x : sx) : key * N :=
+  match x with
+  | SL [p; n] => (get_B p, get_N n)
+  | _ => ([], 0)
+  end.
+
+Fixpoint mount_of (ms : list (key * N)) (k : key) : option (key * N) :=
+  match ms with
+  | [] => None
+  | (p, n) :: r => if starts_with p k then Some (p, n) else mount_of r k
+  end.
+
+Definition pages (n : N) : N := (n + 4095) / 4096.
+
+Definition used_pages (p : key) (fs : list (key * (N * N))) : N :=
+  fold_right (fun e acc => if starts_with p (fst e) then pages (fst (snd e)) + acc else acc) 0 fs.
+
+Definition dec_op_m (dg : bytes -> id) (ms : list (key * N)) (s : tst) (x : sx) : option top :=
+  match x with
+  | SL [t; a] =>
+      if is_sym "insert_file" t then
+        let c := get_content a in
+        let k := key_path (dg c) in
+        match mount_of ms k with
+        | None => Some (TInsertFile c)
+        | Some (p, n) =>
+            Some (TInsertFileCopy c (pages (blen c) <=? n - used_pages p (aremove k (files (lru s)))))
+        end
+      else dec_op x
+  | SL [t; a; b; c] =>
+      if is_sym "insert_with" t then
+        match mount_of ms (key_path (get_B a)) with
+        | Some _ => if get_bool c then Some (TInsertWith (get_B a) (get_content b) true)
+                    else Some (TInsertWithXdev (get_B a) (get_content b))
+        | None => Some (TInsertWith (get_B a) (get_content b) (get_bool c))
+        end
+      else if is_sym "crash_upload" t then Some (TCrashUpload (get_B a) (get_content b) (get_N c))
+      else None
+  | _ => None
+  end.
+
+Fixpoint mtrace (dg : bytes -> id) (ms : list (key * N)) (s : tst) (ops : list sx) : list (tout * tst) :=
+  match ops with
+  | [] => []
+  | x :: r =>
+      match x with
+      | SL [t; a; k; c] =>
+          if is_sym "crash_insert_file" t then
+            (* known finding C17-K1: killed while the fall-back copy had written k bytes; restart *)
+            let s' := tc_crash_insert_file_copy dg s (get_content a) (N.to_nat (get_N k)) (get_N c) in
+            (TORes TOk None [bs "killed"], s') :: mtrace dg ms s' r
+          else
+            match dec_op_m dg ms s x with
+            | Some o => let '(s', out) := tstep dg s o in (out, s') :: mtrace dg ms s' r
+            | None => []
+            end
+      | _ =>
+          match dec_op_m dg ms s x with
+          | Some o => let '(s', out) := tstep dg s o in (out, s') :: mtrace dg ms s' r
+          | None => []
+          end
+      end
+  end.
+
+Definition enc_obs_m (digest : bytes -> id) (ids : list id) (x : tout * tst) : sx :=
+  let '(o, s) := x in
+  let '(r, t, ret) := match o with
+                      | TORes r t ret =>
+                          (enc_tres r, sopt SB t,
+                           match ret with
+                           | [c; d] => SL [SN (blen c); SB d]
+                           | _ => SL (map SB ret)
+                           end)
+                      | TOBool b => (sym (if b then "true" else "false"), SL [], SL [])
+                      end in
+  SL [ r; ret; t;
+       SL (map (fun i => SL [SB i; sbool (tc_contains s i)]) ids);
+       SN (size (lru s)); snat (length (index (lru s)));
+       SL (map (fun e => SL [SB (fst e); SN (snd e)]) (index (lru s)));
+       SL (map (fun e => let c := match alookup (fst e) (cont s) with Some c => c | None => [] end in
+                         SL [SB (fst e); SN (blen c); SN (snd (snd e)); SB (digest c)]) (files (lru s)));
+       snat (length (handles (lru s))) ].
+
+Definition run_mount (x : sx) : sx :=
+  match x with
+  | SL [c; SL tab; SL ids; SL ms; SL ops] =>
+      let dg := table_digest (map dec_pair_m tab) in
+      let s0 := initial (get_N c) [] in
+      SL (map (enc_obs_m dg (map get_B ids)) ((TORes TOk None [], s0) :: mtrace dg (map dec_mount ms) s0 ops))
+  | _ => err "bad case"
+  end.
+
 Definition dispatch (leg : list N) (x : sx) : sx :=
   if bytes_eqb leg (bs "tccache") then run_c17 x
   else if bytes_eqb leg (bs "client") then run_client x
+  else if bytes_eqb leg (bs "mount") then run_mount x
   else err "unknown leg".
